@@ -80,3 +80,86 @@ func (p *Pointer[T]) Load() *T                    { mcrt.Point(); return p.v.Loa
 func (p *Pointer[T]) Store(x *T)                  { mcrt.Point(); p.v.Store(x) }
 func (p *Pointer[T]) Swap(x *T) *T                { mcrt.Point(); return p.v.Swap(x) }
 func (p *Pointer[T]) CompareAndSwap(o, n *T) bool { mcrt.Point(); return p.v.CompareAndSwap(o, n) }
+
+// ---- the rest of the sync/atomic API (functions) ----
+
+func AddUintptr(addr *uintptr, delta uintptr) uintptr {
+	mcrt.Point()
+	return atomic.AddUintptr(addr, delta)
+}
+func LoadUintptr(addr *uintptr) uintptr            { mcrt.Point(); return atomic.LoadUintptr(addr) }
+func StoreUintptr(addr *uintptr, v uintptr)        { mcrt.Point(); atomic.StoreUintptr(addr, v) }
+func SwapInt32(addr *int32, n int32) int32         { mcrt.Point(); return atomic.SwapInt32(addr, n) }
+func SwapInt64(addr *int64, n int64) int64         { mcrt.Point(); return atomic.SwapInt64(addr, n) }
+func SwapUint32(addr *uint32, n uint32) uint32     { mcrt.Point(); return atomic.SwapUint32(addr, n) }
+func SwapUint64(addr *uint64, n uint64) uint64     { mcrt.Point(); return atomic.SwapUint64(addr, n) }
+func SwapUintptr(addr *uintptr, n uintptr) uintptr { mcrt.Point(); return atomic.SwapUintptr(addr, n) }
+func SwapPointer(addr *unsafe.Pointer, n unsafe.Pointer) unsafe.Pointer {
+	mcrt.Point()
+	return atomic.SwapPointer(addr, n)
+}
+func CompareAndSwapUint64(addr *uint64, o, n uint64) bool {
+	mcrt.Point()
+	return atomic.CompareAndSwapUint64(addr, o, n)
+}
+func CompareAndSwapUintptr(addr *uintptr, o, n uintptr) bool {
+	mcrt.Point()
+	return atomic.CompareAndSwapUintptr(addr, o, n)
+}
+func CompareAndSwapPointer(addr *unsafe.Pointer, o, n unsafe.Pointer) bool {
+	mcrt.Point()
+	return atomic.CompareAndSwapPointer(addr, o, n)
+}
+func AndInt32(addr *int32, mask int32) int32     { mcrt.Point(); return atomic.AndInt32(addr, mask) }
+func AndUint32(addr *uint32, mask uint32) uint32 { mcrt.Point(); return atomic.AndUint32(addr, mask) }
+func AndInt64(addr *int64, mask int64) int64     { mcrt.Point(); return atomic.AndInt64(addr, mask) }
+func AndUint64(addr *uint64, mask uint64) uint64 { mcrt.Point(); return atomic.AndUint64(addr, mask) }
+func AndUintptr(addr *uintptr, mask uintptr) uintptr {
+	mcrt.Point()
+	return atomic.AndUintptr(addr, mask)
+}
+func OrInt32(addr *int32, mask int32) int32     { mcrt.Point(); return atomic.OrInt32(addr, mask) }
+func OrUint32(addr *uint32, mask uint32) uint32 { mcrt.Point(); return atomic.OrUint32(addr, mask) }
+func OrInt64(addr *int64, mask int64) int64     { mcrt.Point(); return atomic.OrInt64(addr, mask) }
+func OrUint64(addr *uint64, mask uint64) uint64 { mcrt.Point(); return atomic.OrUint64(addr, mask) }
+func OrUintptr(addr *uintptr, mask uintptr) uintptr {
+	mcrt.Point()
+	return atomic.OrUintptr(addr, mask)
+}
+
+// ---- ... and types ----
+
+func (i *Int32) Swap(x int32) int32    { mcrt.Point(); return i.v.Swap(x) }
+func (i *Int32) And(m int32) int32     { mcrt.Point(); return i.v.And(m) }
+func (i *Int32) Or(m int32) int32      { mcrt.Point(); return i.v.Or(m) }
+func (i *Int64) Swap(x int64) int64    { mcrt.Point(); return i.v.Swap(x) }
+func (i *Int64) And(m int64) int64     { mcrt.Point(); return i.v.And(m) }
+func (i *Int64) Or(m int64) int64      { mcrt.Point(); return i.v.Or(m) }
+func (i *Uint32) Swap(x uint32) uint32 { mcrt.Point(); return i.v.Swap(x) }
+func (i *Uint32) And(m uint32) uint32  { mcrt.Point(); return i.v.And(m) }
+func (i *Uint32) Or(m uint32) uint32   { mcrt.Point(); return i.v.Or(m) }
+
+// Uint64 replaces atomic.Uint64.
+type Uint64 struct{ v atomic.Uint64 }
+
+func (i *Uint64) Load() uint64                    { mcrt.Point(); return i.v.Load() }
+func (i *Uint64) Store(x uint64)                  { mcrt.Point(); i.v.Store(x) }
+func (i *Uint64) Add(d uint64) uint64             { mcrt.Point(); return i.v.Add(d) }
+func (i *Uint64) Swap(x uint64) uint64            { mcrt.Point(); return i.v.Swap(x) }
+func (i *Uint64) CompareAndSwap(o, n uint64) bool { mcrt.Point(); return i.v.CompareAndSwap(o, n) }
+func (i *Uint64) And(m uint64) uint64             { mcrt.Point(); return i.v.And(m) }
+func (i *Uint64) Or(m uint64) uint64              { mcrt.Point(); return i.v.Or(m) }
+
+// Uintptr replaces atomic.Uintptr.
+type Uintptr struct{ v atomic.Uintptr }
+
+func (i *Uintptr) Load() uintptr                    { mcrt.Point(); return i.v.Load() }
+func (i *Uintptr) Store(x uintptr)                  { mcrt.Point(); i.v.Store(x) }
+func (i *Uintptr) Add(d uintptr) uintptr            { mcrt.Point(); return i.v.Add(d) }
+func (i *Uintptr) Swap(x uintptr) uintptr           { mcrt.Point(); return i.v.Swap(x) }
+func (i *Uintptr) CompareAndSwap(o, n uintptr) bool { mcrt.Point(); return i.v.CompareAndSwap(o, n) }
+func (i *Uintptr) And(m uintptr) uintptr            { mcrt.Point(); return i.v.And(m) }
+func (i *Uintptr) Or(m uintptr) uintptr             { mcrt.Point(); return i.v.Or(m) }
+
+func (x *Value) Swap(n any) any               { mcrt.Point(); return x.v.Swap(n) }
+func (x *Value) CompareAndSwap(o, n any) bool { mcrt.Point(); return x.v.CompareAndSwap(o, n) }
